@@ -278,6 +278,32 @@ func (fc *fctx) callWith(c *FuncContract, key string, vars map[string]*Val, sig 
 		tr.oblige("pre", "pre/"+fnKey(fc.fn)+"/"+key+"/"+name, g, pos, clauseProps(cl, tr.topProps), cl.Src)
 		tr.assume(g)
 	}
+	// call-site clauses of the function under verification
+	if fc.top && fc.contract != nil && callee != nil {
+		ord := -1
+		for _, cl := range fc.contract.Clauses {
+			if cl.Kind != "callsite" || cl.Callee != key {
+				continue
+			}
+			if ord < 0 {
+				ord = callOrdinal(fc.fn, callee, pos)
+			}
+			if cl.Loop != ord {
+				continue
+			}
+			cenv := fc.envAt(tr.cur)
+			for n, v := range vars {
+				cenv.vars["arg_"+n] = v
+			}
+			g := fc.evalClause(cenv, cl, tr.topKey)
+			name := cl.Name
+			if name == "" {
+				name = "clause"
+			}
+			tr.oblige("pre", fmt.Sprintf("callsite/%s/%s#%d/%s", fnKey(fc.fn), key, ord, name), g, pos, clauseProps(cl, tr.topProps), cl.Src)
+			tr.assume(g)
+		}
+	}
 	// termination of recursion
 	if fc.top && fc.contract != nil && callee != nil {
 		var mine, theirs []*Clause
@@ -922,4 +948,25 @@ func exclusionOf(c *FuncContract, cl *Clause) *Clause {
 		}
 	}
 	return nil
+}
+
+// callOrdinal: the index of the call at pos among the static call sites of callee in fn, in source order.
+func callOrdinal(fn, callee *ssa.Function, pos token.Pos) int {
+	var ps []token.Pos
+	for _, b := range fn.Blocks {
+		for _, in := range b.Instrs {
+			ci, ok := in.(ssa.CallInstruction)
+			if !ok || ci.Common().StaticCallee() != callee {
+				continue
+			}
+			ps = append(ps, ci.Pos())
+		}
+	}
+	sort.Slice(ps, func(i, j int) bool { return ps[i] < ps[j] })
+	for i, p := range ps {
+		if p == pos {
+			return i
+		}
+	}
+	return -1
 }
